@@ -84,25 +84,25 @@ Print Assumptions C02_legacy_fatal_not_retried.
 (** Non-vacuity: two retryable faults (after 2 bytes with reads of 1 and 3
     bytes) with three attempts succeed with the exact bytes, ranged and
     single; a non-retryable get error is tried once. *)
-Definition nv_obj : bytes := [10; 11; 12; 13; 14; 15; 16; 17; 18; 19].
-Definition nv_fault (c : errcls) : attempt :=
+Definition nv2_obj : bytes := [10; 11; 12; 13; 14; 15; 16; 17; 18; 19].
+Definition nv2_fault (c : errcls) : attempt :=
   {| a_get := None; a_open := None; a_reads := [1; 3]; a_fail_after := Some (2, c);
      a_write_fail := None |}.
-Definition nv_oracle : doracle :=
-  {| o_head_ok := true; o_single := [nv_fault Retryable; nv_fault Retryable];
-     o_ranged := [[nv_fault Retryable]; [nv_fault Retryable; nv_fault Retryable]];
+Definition nv2_oracle : doracle :=
+  {| o_head_ok := true; o_single := [nv2_fault Retryable; nv2_fault Retryable];
+     o_ranged := [[nv2_fault Retryable]; [nv2_fault Retryable; nv2_fault Retryable]];
      o_started := 3; o_sched := [2%nat; 1%nat; 1%nat; 0%nat; 1%nat]; o_io_open_ok := true;
      o_io_fail := None; o_rename_ok := true |}.
 
 Example C02_legacy_nonvacuous :
-  good_oracle 3 nv_oracle /\
-  (let (evs, out) := legacy_download 5 4 3 nv_obj nv_oracle in
-   out = DSuccess /\ dest (final_fs None evs) = Some nv_obj /\
+  good_oracle 3 nv2_oracle /\
+  (let (evs, out) := legacy_download 5 4 3 nv2_obj nv2_oracle in
+   out = DSuccess /\ dest (final_fs None evs) = Some nv2_obj /\
    length (filter is_get evs) = 6%nat) /\
-  (let (evs, out) := legacy_download 50 4 3 nv_obj nv_oracle in
-   out = DSuccess /\ dest (final_fs None evs) = Some nv_obj /\
+  (let (evs, out) := legacy_download 50 4 3 nv2_obj nv2_oracle in
+   out = DSuccess /\ dest (final_fs None evs) = Some nv2_obj /\
    length (filter is_get evs) = 3%nat) /\
-  snd (single_get nv_obj 3 [{| a_get := Some Fatal; a_open := None; a_reads := [];
+  snd (single_get nv2_obj 3 [{| a_get := Some Fatal; a_open := None; a_reads := [];
                                 a_fail_after := None; a_write_fail := None |}]) = RFatal.
 Proof.
   split.
